@@ -94,7 +94,8 @@ fn main() {
   for prog in &programs {
     let baseline = prog.entry.as_ref().map(|e| behaviour(&prog.modules, e));
     if let Some(Err(e)) = &baseline {
-      machinery_failure(&format!("{} does not type-check: {}", prog.name, e.chars().take(300).collect::<String>()));
+      // behaviour cannot be compared for this program; definitions / references / renames still are
+      eprintln!("NOTE: {} does not type-check, behaviour is not compared: {}", prog.name, e.lines().find(|l| !l.trim().is_empty() && !l.starts_with("Error")).unwrap_or("").trim());
     }
     // work items: (target module, group index, occurrence) — each worker builds its own server
     let mut items: Vec<(String, Group, L, bool)> = vec![];
